@@ -140,6 +140,14 @@ def EvalOK (ef : Node → St → Res × St) : Prop :=
     (s.hit = true → (ef n s).2.hit = true) ∧
     ((ef n s).2.hit = false → Good env inp (ef n s).2 ∧ Den env inp n (ef n s).1)
 
+theorem keepExc_okc (s0 : St) (p : Res × St) (A : Prop) (n : Node)
+    (h : (A → p.2.hit = true) ∧ (p.2.hit = false → Good env inp p.2 ∧ Den env inp n p.1)) :
+    (A → (keepExc s0 p).2.hit = true) ∧
+    ((keepExc s0 p).2.hit = false → Good env inp (keepExc s0 p).2 ∧ Den env inp n (keepExc s0 p).1) := by
+  have ho := keepExc_excOnly s0 p
+  rw [keepExc_fst, ho.hit]
+  exact ⟨h.1, fun hh => ⟨Good.of_sameCache env inp ho.sameCache (h.2 hh).1, (h.2 hh).2⟩⟩
+
 theorem evalNode_ok (ef : Node → St → Res × St) (hef : EvalOK env inp ef) :
     CalleeOK env inp (evalNode env ef) := by
   intro n s hs
@@ -155,7 +163,7 @@ theorem evalNode_ok (ef : Node → St → Res × St) (hef : EvalOK env inp ef) :
       exact ⟨Good.of_sameCache env inp hsc (hs h0), (hs h0).sound n v hc hl⟩
     | none =>
       simp only []
-      refine hef n s hs (fun h0 _ => ?_)
+      refine keepExc_okc env inp s _ _ n (hef n s hs (fun h0 _ => ?_))
       -- an input would be held
       cases hi : inp n with
       | none => rfl
@@ -164,7 +172,7 @@ theorem evalNode_ok (ef : Node → St → Res × St) (hef : EvalOK env inp ef) :
         rw [hl] at this; cases this
   · have hc' : env.cached n.1 = false := by simpa using hc
     simp only [hc', Bool.false_eq_true, if_false]
-    exact hef n s hs (fun _ h => by simp [hc'] at h)
+    exact keepExc_okc env inp s _ _ n (hef n s hs (fun _ h => by simp [hc'] at h))
 
 
 theorem den_of_body (n : Node) (r : Res) (hb : DenBody env inp (env.formula n) r)
@@ -316,12 +324,14 @@ theorem evalNode_complete (d : Nat) (ef : Node → St → Res × St)
       exact Den_det env inp n _ _ (hg.sound n v hc hl) ⟨d, hd⟩
     | none =>
       simp only []
+      rw [keepExc_fst, (keepExc_excOnly s _).hit]
       refine hef n s r hg h0 (fun _ => ?_) hd
       cases hi : inp n with
       | none => rfl
       | some v => have := hg.inputsHeld n v hc hi; rw [hl] at this; cases this
   · have hc' : env.cached n.1 = false := by simpa using hc
     simp only [hc', Bool.false_eq_true, if_false]
+    rw [keepExc_fst, (keepExc_excOnly s _).hit]
     exact hef n s r hg h0 (fun h => by simp [hc'] at h) hd
 
 theorem runN_complete : ∀ (d : Nat) (n : Node) (s : St) (r : Res),
